@@ -674,18 +674,55 @@ def violation_payload(da, db, tol, code, what):
             'python': 'a = %s\nb = %s\na.equals(b, %r)' % (py_expr(da), py_expr(db), float(tol))}
 
 
-def c17_replay(p):
+def c17_eval(p):
+    """-> (observed code, what is wrong or None) for a stored pair {a, b, tol}"""
     da, db, tol = unjson(p['a']), unjson(p['b']), Fr(p['tol'])
     c = impl_equals(da, db, tol)
     must_not_raise, exp = spec_equal(da, db, tol)
-    print(p.get('python', ''))
-    print('observed now: %s    specification: %s%s' % (code_str(c), exp if exp is not None else 'unspecified (inside the band)',
-                                                        ', must not raise' if must_not_raise else ''))
+    bad = None
     if c >= 10 and must_not_raise:
-        return 1
-    if c < 10 and exp is not None and c != (1 if exp else 0):
-        return 1
-    return 0
+        bad = 'equals raised %s for two well-formed objects' % code_str(c)[6:]
+    elif c < 10 and exp is not None and c != (1 if exp else 0):
+        bad = 'equals returned %s, the specification requires %s' % (code_str(c), exp)
+    return c, bad, exp, must_not_raise
+
+
+def c17_replay(p):
+    c, bad, exp, must_not_raise = c17_eval(p)
+    print(p.get('python', ''))
+    print('observed now: %s    specification: %s%s' % (code_str(c), exp if exp is not None else 'unspecified (inside the band or not well-formed)',
+                                                        ', must not raise' if must_not_raise else ''))
+    return 1 if bad else 0
+
+
+def c17_corpus(path):
+    """minimised past failures, run first: -> (number run, list of violation payloads)"""
+    if not os.path.exists(path):
+        return 0, []
+    out = []
+    items = json.load(open(path))
+    for p in items:
+        c, bad, _, _ = c17_eval(p)
+        if bad:
+            da, db = unjson(p['a']), unjson(p['b'])
+            out.append(violation_payload(da, db, Fr(p['tol']), c, bad))
+    return len(items), out
+
+
+def c18_corpus(path):
+    if not os.path.exists(path):
+        return 0, []
+    out = []
+    items = json.load(open(path))
+    for p in items:
+        cs = tuple(p['case'])
+        code, post = c18_impl(cs)
+        v = {1: 'K', 2: 'A', 3: 'X'}.get(code, 'O')
+        sp = c18_spec(cs)
+        if v != sp or post:
+            out.append({'case': list(cs), 'what': 'corpus case: expected %s, observed %s%s' % (sp, v, (' then ' + post) if post else ''),
+                        'expected': sp, 'observed': v})
+    return len(items), out
 
 
 # =============================================================================================
